@@ -94,7 +94,10 @@ InPair == cfg.trace => topen
 
 \* Expect: 100-continue: an interim response may be written after the head was read and before the body is
 \* read (only when the request asked for it; the property does not oblige the server to send it)
-SendInterim == /\ phase = "idle" /\ cur <= N /\ ~MustReject(cur) /\ reqs[cur].expect100 /\ ~interim /\ ~Denied(cur)
+\* (the server answers 100 on the strength of the head alone: a body over the limit, or one the peer never completes,
+\* is refused / given up afterwards)
+SendInterim == /\ phase = "idle" /\ cur <= N /\ ~reqs[cur].bad /\ reqs[cur].end >= reqs[cur].headEnd   \* a complete, well-formed head
+               /\ reqs[cur].expect100 /\ ~interim /\ ~Denied(cur)
                /\ sent >= reqs[cur].headEnd
                /\ interim' = TRUE
                /\ out' = Append(out, [i |-> cur, kind |-> "interim", close |-> FALSE])
